@@ -26,12 +26,29 @@ class _NoSleep:
         return 1700000000.0
 
 
+_CURRENT = {"world": None}
+
+
+def _global_get_dongle(*a, **k):
+    return _CURRENT["world"].get_dongle(*a, **k)
+
+
 def bind_world(world):
-    """Point every transport seam of the middleware at ``world``."""
-    H.getDongle = world.get_dongle
-    HT.getDongle = world.get_dongle
-    H.hid = HidStub
-    LP.time = _NoSleep()
+    """Point every transport seam of the middleware at ``world``: the names the modules
+    imported (``from ledgerblue.comm import getDongle``) and the library functions themselves
+    (should the code under test come to call ``ledgerblue.comm.getDongle`` through the module)."""
+    import ledgerblue.comm as LC
+    import ledgerblue.commTCP as LCT
+    _CURRENT["world"] = world
+    LC.getDongle = _global_get_dongle
+    LCT.getDongle = _global_get_dongle
+    for mod in (H, HT):
+        if "getDongle" in vars(mod):
+            mod.getDongle = world.get_dongle
+    if "hid" in vars(H):
+        H.hid = HidStub
+    if "time" in vars(LP):
+        LP.time = _NoSleep()
 
 
 def make_dongle(world, platform="ledger"):
